@@ -455,6 +455,39 @@ const rsmSet = `<set xmlns='http://jabber.org/protocol/rsm'><first index='0'>a</
 
 const formX = `<x xmlns='jabber:x:data' type='result'><field var='FORM_TYPE' type='hidden'><value>urn:xmpp:dataforms:softwareinfo</value></field><field var='os'><value>Mac</value></field></x>`
 
+// a configuration form as a room or a node sends it (XEP-0045 / XEP-0060), with fields of every kind
+const cfgForm = `<x xmlns='jabber:x:data' type='form'><title>Configuration</title><instructions>Fill in</instructions>` +
+	`<field type='hidden' var='FORM_TYPE'><value>http://jabber.org/protocol/muc#roomconfig</value></field>` +
+	`<field label='Name' type='text-single' var='muc#roomconfig_roomname'><value>A Dark Cave</value></field>` +
+	`<field label='Description' type='text-multi' var='muc#roomconfig_roomdesc'><value>The place for all good witches!</value><value>second line</value></field>` +
+	`<field label='Public' type='boolean' var='muc#roomconfig_publicroom'><value>0</value></field>` +
+	`<field label='Max' type='list-single' var='muc#roomconfig_maxusers'><value>10</value><option label='10'><value>10</value></option><option label='20'><value>20</value></option></field>` +
+	`<field label='Roles' type='list-multi' var='muc#roomconfig_presencebroadcast'><value>moderator</value><value>participant</value><option><value>moderator</value></option><option><value>participant</value></option></field>` +
+	`<field label='Admins' type='jid-multi' var='muc#roomconfig_roomadmins'><value>wiccarocks@shakespeare.lit</value></field>` +
+	`<field label='Owner' type='jid-single' var='muc#roomconfig_owner'><value>hecate@shakespeare.lit</value></field>` +
+	`<field type='fixed'><value>Section</value></field></x>`
+
+// values at the boundaries of line splitting and trimming
+var formBoundary = []string{"", "a&#13;", "a\n", "a&#13;\n", "&#13;", "\n", "\n\n", "&#13;\n&#13;\n", "a\n\nb", "a&#13;b", " ", "\t", strings.Repeat("x", 5000), "a\n" + strings.Repeat("y", 3000) + "&#13;"}
+
+// formBoundaryMutate replaces the content of 1-3 <value/> elements by boundary values.
+func formBoundaryMutate(r *hx.Rand, root *node) {
+	var els, vals []*node
+	root.elements(&els)
+	for _, e := range els {
+		if e.name == "value" {
+			vals = append(vals, e)
+		}
+	}
+	if len(vals) == 0 {
+		return
+	}
+	for k := 1 + r.Intn(3); k > 0; k-- {
+		v := vals[r.Intn(len(vals))]
+		v.kids = []*node{{text: formBoundary[r.Intn(len(formBoundary))], rawTxt: true}}
+	}
+}
+
 var errReply = `<iq type='error' id='{ID}' from='example.net'><error type='cancel'><service-unavailable xmlns='` + nsErr + `'/><text xmlns='` + nsErr + `' xml:lang='en'>no</text></error></iq>`
 
 func res(payload string) string {
@@ -488,6 +521,8 @@ var canonReply = map[string][]string{
 	"unmarshal-struct": {res(`<query xmlns='urn:example:q' a='1'><b>2</b></query>`)},
 	"iter-plain":       {res(`<query xmlns='urn:example:q'><a/><b>t</b><c><d/></c></query>`)},
 	"ibb-open":         {res(``)},
+	"muc-config":       {res(`<query xmlns='http://jabber.org/protocol/muc#owner'>` + cfgForm + `</query>`)},
+	"pubsub-config":    {res(`<pubsub xmlns='http://jabber.org/protocol/pubsub#owner'><configure node='princely_musings'>` + cfgForm + `</configure></pubsub>`)},
 }
 
 var helperNames []string
@@ -504,6 +539,17 @@ func genReply(r *hx.Rand, helper string) (string, []string) {
 	list := canonReply[helper]
 	s := list[r.Intn(len(list))]
 	n := r.Intn(20)
+	if strings.Contains(s, "jabber:x:data") && r.Chance(1, 2) {
+		// a form the helper will decode (and possibly submit again): values at the
+		// boundaries of line splitting
+		t := parseTree(s)
+		formBoundaryMutate(r, t)
+		labels := []string{"reply/form-boundary"}
+		if r.Chance(1, 3) {
+			labels = append(labels, "mut/"+mutate(r, t, true))
+		}
+		return t.String(), labels
+	}
 	switch {
 	case n < 3:
 		return s, []string{"reply/canonical"}
